@@ -203,6 +203,7 @@ func genScenario(t *rapid.T, s *rt.Spec, d domain) *rt.Scenario {
 			}
 		}
 	}
+	scn.CustomCtx = prob(t, "customctx", 0.25)
 	scn.N = 1 + uniform(t, "n", 4)
 	scn.COE = uniform(t, "coe", 2) == 0
 	if d.gate > 0 && !faulty && s.Kind == "flow" && prob(t, "gate", d.gate) {
@@ -286,6 +287,11 @@ func executeAs(s *rt.Spec, scn *rt.Scenario, prop, regName string) *execResult {
 		run := &rt.Run{Env: env, Mode: prop}
 		res.runs[i] = run
 		ctx, cancel := context.WithCancel(rt.WithEnv(context.Background(), env))
+		if sc.CustomCtx {
+			cancel() // not used
+			mc := rt.NewManualCtx(rt.WithEnv(context.Background(), env))
+			ctx, cancel = mc, mc.Cancel
+		}
 		env.Cancel = cancel
 		if sc.CancelK == rt.CPre {
 			cancel()
